@@ -47,7 +47,15 @@ func HandoffOracle() clustermc.Oracle {
 				why = "node-deleted"
 			}
 			for _, b2 := range t.Res.After.BindRequests {
-				if b2.UID == br.UID && br.UID != "" {
+				// the same object: by UID, or - for requests the scheduler created itself (the fake API server
+				// assigns no UIDs) - by name with the very state that made it stale (a request re-created in
+				// this cycle has an empty phase and selects an existing node)
+				same := b2.UID == br.UID && br.UID != ""
+				if br.UID == "" && b2.UID == "" && b2.Namespace == br.Namespace && b2.Name == br.Name && b2.Spec.SelectedNode == br.Spec.SelectedNode &&
+					b2.Status.Phase == br.Status.Phase && b2.Status.FailedAttempts == br.Status.FailedAttempts {
+					same = true
+				}
+				if same {
 					out = append(out, engine.Violation{Property: "C12", Key: "C12/stale-bindrequest-not-deleted why=" + why,
 						Message: fmt.Sprintf("BindRequest %s (%s, phase=%s attempts=%d) still exists after the cycle", br.Name, why, br.Status.Phase, br.Status.FailedAttempts)})
 				}
